@@ -92,6 +92,13 @@ def build(rng, tier):
     for pid, q in (("youter", outer), ("yinner", inner)):
         progs[pid] = q; PROGS[pid] = q
         mods.append((pid, eng.rs_module(pid, q, macro="ascent_par")))
+    # (1f) lattice programs whose lattice is read through a NON-key (set-valued) index inside its own stratum, for the "small first pool" fresh-process scenarios below
+    sp = gen.sp_program()
+    progs["ysp"] = sp; PROGS["ysp"] = sp
+    mods.append(("ysp", eng.rs_module("ysp", sp, macro="ascent_par")))
+    for i, q in enumerate(engcheck.make_programs(rng.fork("c20lat"), 3 if tier == "quick" else 8, genf=gen.gen_lat_program, filt=gen.lat_ok)):
+        progs[f"ylp{i}"] = q; PROGS[f"ylp{i}"] = q
+        mods.append((f"ylp{i}", eng.rs_module(f"ylp{i}", q, macro="ascent_par")))
     # (2) several instances, of the same and of different generated types, serial and parallel, running at the same time
     pids = list(progs)
     for g in range(6 if tier == "quick" else 40):
@@ -185,6 +192,31 @@ def fresh_process_step(r, d, progs, bins, tier):
             d.evals += 1
             if why: d.failing.append({"input": "\n".join(lines), "impl": "\n".join(str(x) for x in out), "model": None, "why": why})
     r.cov["fresh_process_scenarios"] = n
+    # the process-wide shard count of the concurrent indices is decided by the pool in which the FIRST parallel program value of the process is constructed: in a fresh
+    # process whose first value is made in a pool of 1 / 2 / 3 threads (4 / 8 / 16 shards) lattice and relational programs then run in pools of 1..16 threads
+    rng = core.SplitMix(core.seed()).fork("C20few")
+    m = 0
+    lat_pids = ["ysp"] + sorted(pid for pid in PROGS if pid.startswith("ylp"))
+    for first in (1, 2, 3):
+        for k, pid in enumerate(lat_pids + ["yjoin"]):
+            p = PROGS[pid]
+            lines = [f"eng prog {pid} {eng.sx_prog(p)}", f"eng new warm {pid} par {first}"]
+            exp = []
+            for j, t in enumerate((4, 16, 1, 3) if tier == "quick" else (1, 2, 3, 4, 5, 8, 16)):
+                g = rng.fork(f"{first}_{pid}_{j}")
+                inp = gen.sp_input(g) if pid == "ysp" else ({0: [(10 * c + q, 10 * c + q + 1) for c in range(40) for q in range(4)]} if pid == "yjoin" else gen.gen_lat_input(g, p))
+                inst = f"f{j}"
+                lines += [f"eng new {inst} {pid} par {t}"] + engcheck.load_ops(inst, inp) + [f"eng runin {inst} {t}", f"eng dump {inst}"]
+                exp.append((len(lines) - 1, inp, t))
+            out = tieb.run_impl(bins, lines, [pid] * len(lines), timeout=300)
+            m += 1
+            why = None
+            for pos, inp, t in exp:
+                w = engcheck.check_sets(p, str(out[pos]), engcheck.spec_sets(p, inp))
+                if w: why = f"{pid} in a pool of {t} threads, in a process whose first parallel program value was constructed in a pool of {first}: {w}"; break
+            d.evals += 1
+            if why: d.failing.append({"input": "\n".join(lines), "impl": "\n".join(str(x) for x in out), "model": None, "why": why})
+    r.cov["small_first_pool_scenarios"] = m
 
 
 def check(tier, replay=None):
